@@ -217,4 +217,111 @@ theorem mapM_some_length {α β} (f : α → Option β) : ∀ (l : List α) (vs 
         subst h
         simp [mapM_some_length f l ws hl]
 
+/-! ### `map` by name: the comprehension `mapE` and the lookup `callByName` -/
+
+/-- a comprehension that does not raise has one element per member -/
+theorem mapE_length (f : Nat → Except Err Int) : ∀ (l : List Nat) (vs : List Int), mapE f l = .ok vs → vs.length = l.length
+  | [], vs, h => by simp [mapE] at h; simp [← h]
+  | i :: l, vs, h => by
+    simp only [mapE] at h
+    cases hf : f i with
+    | error e => simp [hf] at h
+    | ok v =>
+      cases hl : mapE f l with
+      | error e => simp [hf, hl] at h
+      | ok ws =>
+        simp [hf, hl] at h
+        subst h
+        simp [mapE_length f l ws hl]
+
+theorem mapE_ok_of_forall (f : Nat → Except Err Int) (g : Nat → Int) (l : List Nat) (h : ∀ i ∈ l, f i = .ok (g i)) :
+    mapE f l = .ok (l.map g) := by
+  induction l with
+  | nil => rfl
+  | cons i l ih =>
+    have h1 := h i List.mem_cons_self
+    have h2 := ih (fun j hj => h j (List.mem_cons_of_mem _ hj))
+    simp [mapE, h1, h2]
+
+/-- the element results of a comprehension that did not raise, position by position -/
+theorem mapE_getElem (f : Nat → Except Err Int) : ∀ (l : List Nat) (vs : List Int), mapE f l = .ok vs →
+    ∀ (j : Nat) (i : Nat), l[j]? = some i → ∃ v, vs[j]? = some v ∧ f i = .ok v
+  | [], vs, h, j, i, hj => by simp at hj
+  | a :: l, vs, h, j, i, hj => by
+    simp only [mapE] at h
+    cases hf : f a with
+    | error e => simp [hf] at h
+    | ok v =>
+      cases hl : mapE f l with
+      | error e => simp [hf, hl] at h
+      | ok ws =>
+        simp [hf, hl] at h
+        subst h
+        cases j with
+        | zero => simp at hj; subst hj; exact ⟨v, by simp, hf⟩
+        | succ j => simp at hj; simpa using mapE_getElem f l ws hl j i hj
+
+/-- a comprehension raises iff some element does, and then with the exception of the *first* such element -/
+theorem mapE_error (f : Nat → Except Err Int) : ∀ (l : List Nat) (e : Err), mapE f l = .error e →
+    ∃ pre i post, l = pre ++ i :: post ∧ f i = .error e ∧ ∀ j ∈ pre, ∃ v, f j = .ok v
+  | [], e, h => by simp [mapE] at h
+  | a :: l, e, h => by
+    simp only [mapE] at h
+    cases hf : f a with
+    | error e' => simp [hf] at h; subst h; exact ⟨[], a, l, rfl, hf, by simp⟩
+    | ok v =>
+      cases hl : mapE f l with
+      | ok ws => simp [hf, hl] at h
+      | error e' =>
+        simp [hf, hl] at h
+        subst h
+        obtain ⟨pre, i, post, h1, h2, h3⟩ := mapE_error f l e' hl
+        refine ⟨a :: pre, i, post, by simp [h1], h2, fun j hj => ?_⟩
+        rcases List.mem_cons.mp hj with rfl | hj
+        · exact ⟨v, hf⟩
+        · exact h3 j hj
+
+/-- a comprehension over elements that read one optional value -/
+theorem mapE_of_option (f : Nat → Except Err Int) (o : Nat → Option Int) (g : Int → Int)
+    (hf : ∀ i, f i = match o i with | some v => .ok (g v) | none => .error .attr) (l : List Nat) :
+    mapE f l = match l.mapM o with | some vs => .ok (vs.map g) | none => .error .attr := by
+  induction l with
+  | nil => simp [mapE]
+  | cons i l ih =>
+    simp only [mapE, List.mapM_cons, hf i, ih]
+    cases ho : o i with
+    | none => simp
+    | some v =>
+      cases hl : l.mapM o with
+      | none => simp
+      | some ws => simp
+
+theorem callByName_plus (st : Store) (k : Nat) (d : Int) (i : Nat) :
+    callByName st (.plus k) d i = match (st.agent i).attr k with | some v => .ok (v + d) | none => .error .attr := rfl
+
+theorem callByName_own (st : Store) (k : Nat) (d : Int) (i : Nat) :
+    callByName st (.own k) d i = match (st.agent i).attr k with | some v => .ok (3 * v + d) | none => .error .attr := rfl
+
+theorem callByName_base (st : Store) (d : Int) (i : Nat) : callByName st .base d i = .ok (2 * d) := rfl
+
+theorem callByName_rank (st : Store) (d : Int) (i : Nat) : callByName st .rank d i = .ok (((st.agent i).ty : Int) + d) := rfl
+
+theorem callByName_nosuch (st : Store) (d : Int) (i : Nat) : callByName st .nosuch d i = .error .attr := rfl
+
+theorem map_plus_eq (st : Store) (s k : Nat) (d : Int) :
+    map st s (.plus k d) = match (st.get s).mapM (fun i => (st.agent i).attr k) with
+      | some vs => .ok (vs.map (· + d)) | none => .error .attr :=
+  mapE_of_option _ (fun i => (st.agent i).attr k) (· + d) (callByName_plus st k d) _
+
+theorem map_own_eq (st : Store) (s k : Nat) (d : Int) :
+    map st s (.own k d) = match (st.get s).mapM (fun i => (st.agent i).attr k) with
+      | some vs => .ok (vs.map (3 * · + d)) | none => .error .attr :=
+  mapE_of_option _ (fun i => (st.agent i).attr k) (3 * · + d) (callByName_own st k d) _
+
+theorem map_nosuch_eq (st : Store) (s : Nat) : map st s .nosuch = if st.get s = [] then .ok [] else .error .attr := by
+  simp only [map]
+  cases st.get s with
+  | nil => rfl
+  | cons i l => simp [mapE, callByName_nosuch]
+
 end Mesa.ASet
